@@ -332,5 +332,8 @@ def replay(ctx, rep):
     for (u, t), (first, cans) in sorted(s1.items()):
         if rep.get('user') in (None, u) and rep.get('target') in (None, t):
             print('  %s on %-4s has_perm %s  can_* %s   (order: %s)' % (u, t, first, cans, meta['perms']))
+    for (u, name), got in sorted(json_objects(db, users, meta).items()):
+        if rep.get('user') in (None, u) and rep.get('target') in (None, name):
+            print('  to_json(%s, include=relationships) as %s: %s' % (name, u, 'PermissionError' if got is None else sorted(got)))
     db.disconnect()
     ctx.violations.append('replayed')
